@@ -26,6 +26,20 @@ pub fn run_one(out: &mut Out, sc: usize, s: &J) {
             let size = u64_of(&s["size_n"]) as usize;
             call(|| csl::min_fee_for_size(size, &lf)).to_json(|c| obj(vec![("v_n", jbn(&c))]))
         }
+        // the script fee of a TRANSACTION: over the summed execution units of all its redeemers
+        "script" => {
+            let pr = csl::ExUnitPrices::new(&ui(&s["mn_n"], &s["md_n"]), &ui(&s["sn_n"], &s["sd_n"]));
+            let mut reds = csl::Redeemers::new();
+            for (i, r) in s["reds"].as_array().unwrap().iter().enumerate() {
+                reds.add(&csl::Redeemer::new(&csl::RedeemerTag::new_spend(), &csl::BigNum::from(i as u64), &csl::PlutusData::new_integer(&csl::BigInt::from(i as u64)),
+                                             &csl::ExUnits::new(&bn_of(&r[0]), &bn_of(&r[1]))));
+            }
+            let mut ws = csl::TransactionWitnessSet::new();
+            ws.set_redeemers(&reds);
+            let body = csl::TransactionBody::new_tx_body(&csl::TransactionInputs::new(), &csl::TransactionOutputs::new(), &csl::BigNum::from(0u64));
+            let tx = csl::Transaction::new(&body, &ws, None);
+            call(|| csl::min_script_fee(&tx, &pr)).to_json(|c| obj(vec![("v_n", jbn(&c))]))
+        }
         _ => panic!("unknown fn {}", f),
     };
     let mut e = s.clone();
@@ -50,7 +64,16 @@ fn gen(rng: &mut Rng) -> J {
             _ => (rng.edge_u64(), rng.edge_u64().max(1)),
         }
     };
-    match rng.below(3) {
+    match rng.below(4) {
+        3 => {
+            // several redeemers: units whose individual costs are fractional (the sum is priced once), and totals near 2^64
+            let (mn, md) = if rng.chance(1, 2) { (577, 10_000) } else { price(rng) };
+            let (sn, sd) = if rng.chance(1, 2) { (721, 10_000_000) } else { price(rng) };
+            let n = 1 + rng.below(4);
+            let near = rng.chance(1, 6);
+            let reds: Vec<J> = (0..n).map(|_| if near { json!([jn(rng.edge_u64() / n), jn(rng.edge_u64() / n)]) } else { json!([jn(rng.below(20_000)), jn(rng.below(20_000_000))]) }).collect();
+            json!({"fn":"script","reds":reds,"mn_n":jn(mn),"md_n":jn(md),"sn_n":jn(sn),"sd_n":jn(sd)})
+        }
         0 => {
             let (pn, pd) = price(rng);
             let size = match rng.below(3) { 0 => rng.below(1_048_576), 1 => 25_600 * rng.below(41) + rng.below(3), _ => rng.below(60_000) };
